@@ -37,4 +37,5 @@ package entrypoint
 //@   ensures[C01] ackSuccess(ack) && forOrb(packet) ==> forall d string :: bal(bank, core.ModuleAddress, d) <= bal(old(bank), core.ModuleAddress, d)
 //
 //   C18 (ordering): a too long passthrough payload is refused before the wrapped application runs.
-//@   ensures[C18] wrapped_n <= old(wrapped_n) + 1
+//@   ensures[C18] hook_n > old(hook_n) && hook_failed ==> wrapped_n == old(wrapped_n) && !ackSuccess(ack)
+//@   ensures[C18] wrapped_n > old(wrapped_n) && forOrb(packet) && validIds(packet) ==> hook_n == old(hook_n) + 1 && !hook_failed
